@@ -190,7 +190,7 @@ def report_rows(run, bads, terms, ct):
           if clause == "eqm" and x in b["litvar"]:
             key = KEY_LIT
           else:
-            key = KEY_PTR % (clause, term_str(a), term_str(o))
+            key = (KEY_PTR % (clause, term_str(a), term_str(o))).replace(" ", "")
           what = ("%s: %r (class pointers filled in) vs %r (no pointers): %s; SpecEq of the terms by TLC, "
                   "class pointers are not part of a node's identity" % (clause, na, nb, obs))
           run.violation(key, what, {"kind": "xpair", "a": a, "b": o, "clause": clause, "observed": obs})
@@ -204,7 +204,7 @@ def report_rows(run, bads, terms, ct):
         if b[clause]:
           run.add("life_failing_" + clause)
           ops = [steps[k - 1]["op"] for k in b[clause]]
-          run.violation("C12:life-%s:%s" % (clause, term_str(a)),
+          run.violation(("C12:life-%s:%s" % (clause, term_str(a))).replace(" ", ""),
                         "one node object %r through Fill -> Clear (Serialize) -> Decode -> Refill: %s at %s; steps %s"
                         % (st.type_node(a, class_type=True),
                            {"moved": "hash differs from the hash after Fill", "lost": "not found in a set built after Fill",
